@@ -167,6 +167,112 @@ def run_subdir(sc):
     return out
 
 
+def run_names(sc, fl):
+    """kind 'names': pipeline NAMES as arbitrary strings. One process, many cases; before every case the trees
+    w/ e/ e2/ are emptied and the caches cleared. Every file of a case is a pipeline whose only step records the
+    file's own relative path (its marker), so what RAN is observed, not only found / not-found.
+      case = {"files": [rel…], "mkdirs": [rel…], "name": str, "via": "path"|"run"|"cli"|"pype", "parent": str|null,
+              "parent_form": "str"|"path", "vroot": rel|null}
+    -> per case {"probe": facts about the FILE SYSTEM only (os.path on `dir + '/' + name + '.yaml'`, plain string
+       append; no pypyr involved), "ok": path | "ran": [marker…], "err", "msg"}"""
+    import io
+    import shutil
+    import signal
+    import pypyr.cache.admin
+    import pypyr.pipelinerunner
+    import vtrail
+    root = Path(sc['root'])
+    cwd = str(fl.config.cwd)
+    builtin = str(fl.builtin_pipelines_dir)
+
+    class Timeout(BaseException):
+        pass
+
+    def on_alarm(signum, frame):
+        raise Timeout()
+    signal.signal(signal.SIGALRM, on_alarm)
+    os.environ['PYPYR_SKIP_INIT'] = '1'
+    results = []
+    for case in sc['cases']:
+        for top in ('w', 'e', 'e2'):
+            (root / top).mkdir(exist_ok=True)
+            for child in os.listdir(root / top):
+                q = root / top / child
+                if q.is_dir() and not q.is_symlink():
+                    shutil.rmtree(q)
+                else:
+                    os.remove(q)
+        (root / 'w' / 'pipelines').mkdir()
+        for d in case.get('mkdirs', []):
+            (root / d).mkdir(parents=True, exist_ok=True)
+        for rel in case['files']:
+            f = root / rel
+            f.parent.mkdir(parents=True, exist_ok=True)
+            f.write_text(f"steps:\n  - name: vcustomstep\n    in:\n      vfile: {json.dumps(rel)}\n")
+        name = case['name']
+        if case.get('vroot'):
+            vr = root / case['vroot']
+            vr.parent.mkdir(parents=True, exist_ok=True)
+            vr.write_text(f"steps:\n  - name: pypyr.steps.pype\n    in:\n      pype:\n        name: {json.dumps(name)}\n")
+        pypyr.cache.admin.clear_all()
+        # ---- facts about the file system (monitor side) -------------------------------------------------
+        parent = case.get('parent')
+        probe = {'abs': name.startswith('/'), 'cands': []}
+        if parent:
+            probe['parent'] = {'exists': os.path.isdir(parent), 'real': os.path.realpath(parent),
+                               'is_cwd': os.path.isdir(parent) and os.path.samefile(parent, cwd)}
+        if name.startswith('/'):
+            c = name + '.yaml'
+            probe['cands'].append([None, os.path.isfile(c), os.path.realpath(c)])
+        else:
+            for key, d in (('parent', os.path.realpath(parent) if parent else None), ('cwd', cwd),
+                           ('sub', cwd + '/pipelines'), ('builtin', builtin)):
+                if d is not None:
+                    c = d + '/' + name + '.yaml'
+                    probe['cands'].append([key, os.path.isfile(c), os.path.realpath(c)])
+        r = {'probe': probe, 'err': None, 'msg': None}
+        del vtrail.T[:]
+        via = case['via']
+        signal.alarm(30)
+        try:
+            if via == 'path':
+                pa = parent
+                if pa is not None and case.get('parent_form') == 'path':
+                    pa = Path(pa)
+                r['ok'] = str(fl.get_pipeline_path(name, pa))
+            elif via == 'run':
+                pypyr.pipelinerunner.run(name)
+            elif via == 'pype':
+                pypyr.pipelinerunner.run(str(root / case['vroot'])[:-5])
+            elif via == 'cli':
+                import pypyr.cli
+                keep = sys.stderr
+                sys.stderr = io.StringIO()
+                try:
+                    rc = pypyr.cli.main([name])
+                    text = sys.stderr.getvalue()
+                finally:
+                    sys.stderr = keep
+                if rc:
+                    tail = text[text.rfind('\x1b[91m') + 5:] if '\x1b[91m' in text else text
+                    tail = tail.replace('\x1b[0;0m', '').strip()
+                    r['err'] = tail.split(': ', 1)[0] or f'exit-{rc}'
+                    r['msg'] = tail.split(': ', 1)[-1]
+            else:
+                raise SystemExit(f'unknown via {via}')
+        except Timeout:
+            r['err'], r['msg'] = 'timeout', 'the look-up did not return within 30 s'
+        except Exception as e:  # noqa: BLE001
+            r['err'], r['msg'] = type(e).__name__, str(e)
+        except SystemExit as e:
+            r['err'], r['msg'] = 'SystemExit', str(e.code)
+        finally:
+            signal.alarm(0)
+        r['ran'] = list(vtrail.T)
+        results.append(r)
+    return results
+
+
 def main():
     sc = json.loads(Path(sys.argv[1]).read_text())
     sys.path.insert(0, sc['repo'])
@@ -216,6 +322,8 @@ def main():
         out['results'] = results
     elif sc['kind'] == 'seq':
         out['results'] = run_seq(sc)
+    elif sc['kind'] == 'names':
+        out['results'] = run_names(sc, fl)
     else:
         import pypyr.pipelinerunner
         before = list(sys.path)
